@@ -4,6 +4,9 @@
 (* history is a sequence of                                                *)
 (*   Update(value index, update mask)   Get(read mask)                     *)
 (*   OpenPull(updates-only, name)       CloseStream(which)                 *)
+(*   Other(delete | create): for servers whose triple addresses one record  *)
+(*   of a collection, another record of that collection is deleted/created  *)
+(*   (a no-op for the other servers)                                        *)
 (* with 1..6 updates and 0..2 streams open at any time.  Values and masks  *)
 (* are indices: the harness maps a value index to one of the 3-4 far-apart *)
 (* well-formed values of the server's resource type (1-4, 7, 8; 5, 6: a    *)
@@ -43,7 +46,8 @@ Build(z, left, open, upd, last, acc) ==
     THEN IF upd = 0 THEN Append(acc, [Blank EXCEPT !.op = "Update", !.val = R(1..4), !.name = R(0..1)]) ELSE acc
     ELSE
       LET d == R(1..100)
-          kind == IF d <= 45 THEN "Update" ELSE IF d <= 63 THEN "Get" ELSE IF d <= 87 THEN "OpenPull" ELSE "CloseStream"
+          kind == IF d <= 42 THEN "Update" ELSE IF d <= 58 THEN "Get" ELSE IF d <= 80 THEN "OpenPull"
+                  ELSE IF d <= 90 THEN "CloseStream" ELSE "Other"
           k2 == IF kind = "OpenPull" /\ open >= 2 THEN "Update"
                 ELSE IF kind = "CloseStream" /\ open = 0 THEN "OpenPull"
                 ELSE kind
@@ -60,6 +64,8 @@ Build(z, left, open, upd, last, acc) ==
         [] k3 = "OpenPull" ->
              Build(z, left - 1, open + 1, upd, last,
                    Append(acc, [Blank EXCEPT !.op = "OpenPull", !.uo = Flip(z, 50), !.name = R(0..1)]))
+        [] k3 = "Other" ->   \* which = 0: delete the other record, 1: (re)create it
+             Build(z, left - 1, open, upd, last, Append(acc, [Blank EXCEPT !.op = "Other", !.which = R({0, 0, 1})]))
         [] OTHER ->
              Build(z, left - 1, open - 1, upd, last, Append(acc, [Blank EXCEPT !.op = "CloseStream", !.which = R(0..1)]))
 
